@@ -678,9 +678,17 @@ impl Game {
     }
 
     pub fn update_phase(&mut self) {
-        if self.is_endgame() {
+        if self.phase != GamePhase::Endgame && self.is_endgame() {
             self.piece_scores[PieceType::King as usize].set(&scores::KING_SCORES_END);
             self.phase = GamePhase::Endgame;
+
+            // The kings were scored with the middlegame table until now,
+            // re-score them so that the total matches the table in use
+            for player in [Player::White, Player::Black] {
+                let position = self.get_king_position(player);
+                let king = self.get_position(position);
+                self.set_position(position, king);
+            }
         }
     }
 
